@@ -179,7 +179,24 @@ def oracleC04 (o : OSt) (op : OpKind) (_log : List String) (cur : World) : Strin
 /-! ## C06 -/
 def terminals : List TCT := [.succeeded, .failed, .metricsUnavailable, .earlyStopped, .killed]
 
-def oracleC06 (o : OSt) (_op : OpKind) (_log : List String) (cur : World) : String :=
+def oracleC06 (o : OSt) (op : OpKind) (_log : List String) (cur : World) : String :=
+  -- at quiescence a finished job has given its Trial a verdict: Failed for the failure condition, and for a successful job
+  -- whose collector has reported, Succeeded or MetricsUnavailable
+  let unjudged : Option String := match op with
+    | .quiesceEnd k =>
+      ((ownTrials cur k).filterMap (fun t =>
+        if t.deleted || tCompleted t then none else
+        match findJob cur t.key with
+        | some j =>
+          if j.state == .failed || j.state == .both then some s!"fail job-satisfied-the-failure-condition-but-trial-is-not-failed {t.key.name}"
+          else if j.state == .succeeded && (dbOf cur t.key.name).any (fun e => e.metric = objMetric) then
+            some s!"fail job-succeeded-and-collector-reported-but-trial-has-no-verdict {t.key.name}"
+          else none
+        | none => none)).head?
+    | _ => none
+  match unjudged with
+  | some f => f
+  | none =>
   let bad := cur.trials.filterMap (fun t =>
     let pj := findJob o.prev t.key
     let cj := findJob cur t.key
@@ -349,6 +366,21 @@ def oracleC16 (o : OSt) (op : OpKind) (log : List String) (cur : World) : String
           else "pass"
       else "pass"
     | _, _ => "pass"
+  | _ => "pass"
+
+/-! ## C17 on schedules: the algorithm pod's RBAC -/
+/-- with early stopping, once the algorithm Deployment exists the generated ServiceAccount, Role and RoleBinding exist too
+    (judged at quiescence: transient gaps while a reconcile is being retried are not violations) -/
+def oracleC17sim (_o : OSt) (op : OpKind) (_log : List String) (cur : World) : String :=
+  match op with
+  | .quiesceEnd k =>
+    match findExp cur k with
+    | some e =>
+      let dk := infraKey k
+      if e.cfg.es && (findDeploy cur dk).isSome && !(cur.sas.contains dk && cur.roles.contains dk && cur.rbs.contains dk) then
+        s!"fail early-stopping-deployment-without-its-serviceaccount-role-rolebinding {k.name}"
+      else "pass"
+    | none => "pass"
   | _ => "pass"
 
 end Katib.Ctl
